@@ -287,6 +287,12 @@ def body(led):
     check_lb(led)
     check_panel_lb(led)
     lemma_backtransform(led)
+    _standin(led)
+
+
+def _standin(led):
+    from . import sparse_standin
+    sparse_standin.check(led, ['remove_null_cols'])
 
 
 def main():
